@@ -19,12 +19,13 @@ func init() {
 				return syncOnly(d) && !d.Waits && !d.Resub
 			})
 			sc.Sub = "sync"
+			sc.SetInt("raw", g.Intn(2))
 			return sc
 		},
 		Run: func(e *Env) {
 			o, srcs := e.Pipeline()
 			rec := e.NewRec("o")
-			h := e.Subscribe(o, rec.Observer(), nil)
+			h := e.Subscribe(o, rec.Obs(), nil)
 			e.Settle()
 			FeedAll(srcs)
 			e.SettleFor(20 * Unit)
@@ -80,6 +81,7 @@ func init() {
 			if g.Bool(0.3) {
 				addStage(g, sc, g.Pick("Map", "Filter", "Scan", "Tap"), n, "sync")
 			}
+			sc.SetInt("raw", g.Intn(2))
 			return sc
 		},
 		Run: func(e *Env) {
@@ -129,7 +131,7 @@ func init() {
 				}
 			}
 			// note: consumed must count at entry; Rec calls the hook after recording, inside the callback
-			e.Subscribe(o, rec.Observer(), nil)
+			e.Subscribe(o, rec.Obs(), nil)
 			e.SettleFor(200 * Unit)
 			if e.K.Capped() {
 				return
